@@ -130,34 +130,25 @@ theorem Assignment.mapCells_zero_idem (a : Assignment) :
     (a.mapCells zeroCell).mapCells zeroCell = a.mapCells zeroCell := by
   simp [Assignment.mapCells, Cog.Builder.mapCells_zero_idem]
 
-/-- `Option.DeepCopy` is the identity on content — except that `Default` is gone -/
-theorem Opt.deepCopy_content (o : Opt) : (Opt.deepCopy o).content = { o.content with dflt := none } := by
+/-- `Option.DeepCopy` is the identity on content -/
+theorem Opt.deepCopy_content (o : Opt) : (Opt.deepCopy o).content = o.content := by
   simp [Opt.deepCopy, Opt.content, Opt.mapCells, Assignment.deepCopy, List.map_map, Function.comp_def,
     Assignment.mapCells_zero_idem]
-
-/-- hence an identical copy exactly when there was no default -/
-theorem Opt.deepCopy_content_of_no_default (o : Opt) (h : o.dflt = none) : (Opt.deepCopy o).content = o.content := by
-  rw [Opt.deepCopy_content]
-  simp [Opt.content, Opt.mapCells, h]
 
 theorem Opt.content_idem (o : Opt) : o.content.content = o.content := by
   simp [Opt.content, Opt.mapCells, List.map_map, Function.comp_def, Assignment.mapCells_zero_idem]
 
-/-- `Builder.DeepCopy`: every member is copied; the options lose their defaults -/
-theorem Builder.deepCopy_content (b : Builder) :
-    (Builder.deepCopy b).content =
-      { b.content with options := b.options.map fun o => { o.content with dflt := none } } := by
+/-- `Builder.DeepCopy` is the identity on content -/
+theorem Builder.deepCopy_content (b : Builder) : (Builder.deepCopy b).content = b.content := by
   simp [Builder.deepCopy, Builder.content, List.map_map, Function.comp_def, Opt.deepCopy_content,
     Assignment.deepCopy, Assignment.mapCells_zero_idem]
 
-theorem Builder.deepCopy_content_of_no_defaults (b : Builder) (h : ∀ o ∈ b.options, o.dflt = none) :
-    (Builder.deepCopy b).content = b.content := by
-  rw [Builder.deepCopy_content]
-  simp only [Builder.content]
-  congr 1
-  apply List.map_congr_left
-  intro o ho
-  simp [Opt.content, Opt.mapCells, h o ho]
+/-- before /repo 71b1811: identity on content except that `Default` was gone -/
+theorem Opt.deepCopyPreFix_content (o : Opt) : (Opt.deepCopyPreFix o).content = { o.content with dflt := none } := by
+  have := Opt.deepCopy_content o
+  simp only [Opt.deepCopyPreFix, Opt.content, Opt.mapCells] at this ⊢
+  simp only [Opt.mk.injEq] at this
+  simp [this.2.2.2.2.1, this.2.2.1, this.1, this.2.1]
 
 
 /-! ### "same target" bookkeeping for the struct / disjunction actions -/
